@@ -7,7 +7,7 @@ for d in sorted(glob.glob('/verif/seeded/*')):
     m=json.load(open(d+'/meta.json'))
     name=os.path.basename(d)
     if name.startswith('F'):
-        rows.append((name, ",".join(m['breaks']), m['origin'], m.get('needs','')[:160], m.get('caught','see DESIGN.md 13.6'), ''))
+        rows.append((name, ",".join(m['breaks']), m['origin'], m.get('needs','')[:160], m.get('rechecked','reported as VIOLATION by the quick tier (tools/recheck_seeded.sh)'), ''))
     else:
         c=m.get('confirmed',{})
         chk=c.get('checks',{})
@@ -16,7 +16,12 @@ for d in sorted(glob.glob('/verif/seeded/*')):
         fr=m.get('first_result')
         if fr is not None and not any(v==1 for v in fr.values()) and caught:
             note=("first verdict: MISSED. "+note).strip()
-        rows.append((name, m['property'], m.get('what','')[:200], m.get('needs','')[:200], ("caught by ./check "+", ".join(caught)) if caught else "MISSED", note))
+        res=("caught by ./check "+", ".join(caught)) if caught else "MISSED"
+        if m.get('superseded'):
+            res="no longer a breaking change"; note=m['superseded']
+        if m.get('rebased'):
+            note=(note+" ["+m['rebased']+"]").strip()
+        rows.append((name, m['property'], m.get('what','')[:200], m.get('needs','')[:200], res, note))
 out=["# Seeded changes (mutants)\n","Each directory: patch.diff, demo.py (exit 0 on the clean tree, 1 on the mutant; absent for F*_revert), meta.json.\n",
      "| id | property | change | needs to manifest | result | note |","|---|---|---|---|---|---|"]
 for r in rows:
